@@ -263,7 +263,7 @@ def step_harness():
             rep[os.path.join(REPO, os.path.relpath(p, hdir))] = p
     ov = os.path.join(out, "overlay.json")
     json.dump({"Replace": rep}, open(ov, "w"), indent=1, sort_keys=True)
-    cover = ["-cover", "-coverpkg=./internal/..."] if os.environ.get("VERIF_COVER") else []   # development aid: tools/coverage.sh
+    cover = ["-cover", "-coverpkg=github.com/bokysan/socketace/v2/..."] if os.environ.get("VERIF_COVER") else []   # development aid: tools/coverage.sh
     rc, o = sh(["go", "build"] + cover + ["-tags", "verif", "-overlay", ov, "-o", os.path.join(out, "verifharness"),
                 "./cmd/verifharness"], cwd=REPO, env=GOENV, timeout=900)
     if rc != 0:
